@@ -176,7 +176,7 @@ class Gen:
                 continue
             qq = q(m)
             fam = r.choice(["quorum", "short", "all", "swap", "dup", "reidx", "outsider", "junk", "err", "badbytes", "qplus",
-                            "duphigh", "duphigh", "unorderedhigh"])
+                            "duphigh", "duphigh", "unorderedhigh", "trailingbad", "trailingbad"])
             idxs = sorted(r.sample(range(m), min(m, qq)))
             kw = {}
             if fam == "duphigh" and m >= 2:
@@ -194,8 +194,16 @@ class Gen:
                 idxs = list(range(m))
             elif fam == "qplus":
                 idxs = sorted(r.sample(range(m), min(m, qq + 1)))
+            elif fam == "trailingbad" and m > qq:
+                # a full quorum of valid signatures at the lowest indexes, followed by one or two entries that do not
+                # verify (outsider / another body / unrecoverable): every listed signature counts, not the first q
+                extra = r.choice([1, 1, 2])
+                idxs = list(range(min(m, qq + extra)))
             ev = self.vaa(r.choice(["d1", "d1", "d2"]), bodies, S, idxs, **kw)
             sg = ev["a"]["w"]["sigs"]
+            if fam == "trailingbad" and m > qq:
+                for bad in sg[qq:]:
+                    bad["signer"] = r.choice(["x1", "JUNK", "ERR"])
             if fam == "swap" and len(sg) >= 2:
                 sg[0], sg[1] = sg[1], sg[0]
             elif fam == "dup" and sg:
@@ -573,6 +581,14 @@ def quorum_site_scenarios(seed_, sizes):
             d = "v%d" % j
             bodies[d] = {"id": "j%d" % j, "chain": 2}
             steps.append(g.vaa(d, bodies, A, sorted(rnd.sample(range(n), c))))
+        if n > need:
+            # the threshold counts VALID signatures: q valid ones followed by one that does not verify is not a complete VAA
+            bodies["vt"] = {"id": "jt", "chain": 2}
+            ev = g.vaa("vt", bodies, A, list(range(need + 1)))
+            ev["a"]["w"]["sigs"][-1]["signer"] = rnd.choice(["x1", "JUNK"])
+            steps.append(ev)
+            bodies["vu"] = {"id": "ju", "chain": 2}
+            steps.append(g.vaa("vu", bodies, A, list(range(need))))     # and the same without the bad entry is one
         steps.append(g.msg("d1", bodies))
         steps.append({"ev": "Loopback", "a": {"d": "d1"}})
         others = [k for k in A["keys"] if k != "g1"]
